@@ -12,7 +12,7 @@ TITLE = "call / call-exact: a sample's column is the same whether it is analysed
 ENCODED = ["mchap.application.call_exact.program.call_sample_genotypes", "mchap.application.call.program.call_sample_genotypes",
            "mchap.application.assemble.program.call_sample_genotypes", "mchap.assemble.haplotype_calling.call_posterior_haplotypes",
            "mchap.application.assemble._genotype_as_alleles", "mchap.application.arguments.parse_sample_pools", "mchap.application.baseclass.program.encode_sample_reads"]
-STUBS = ["call-exact: read likelihood -> ln L_sample(genotype) (a separate positive real per sample and genotype; sample B gets two unrelated versions B and B')",
+STUBS = ["call-exact: read likelihood of the target sample -> ln L_A(genotype) (one positive real per genotype); the other sample carries two different fixed likelihood tables (B and B')",
          "call: CallingMCMC -> recorder (the sampler is a function of its constructor/fit arguments and the seed; the check is that these do not depend on other samples)",
          "assemble: DenovoMCMC -> posterior with symbolic probabilities (as in C13)"]
 ASSUMES = ["self-composition: the same path condition, two runs differing only in the other samples' data; the target sample's outputs must be equal terms",
@@ -25,9 +25,10 @@ TASKS_PER_CHILD = 2
 
 def configs(tier):
     out = []
-    for P, A in (((2, 2), (2, 3)) if tier == "quick" else ((2, 2), (2, 3), (3, 2), (3, 3))):
-        for inbred in (False, True):
-            out.append(dict(group="exact", P=P, A=A, inbred=inbred))
+    for inbred in (False, True):
+        out.append(dict(group="exact", P=2, A=2, inbred=inbred, symf=True))
+    for P, A in (((2, 3),) if tier == "quick" else ((2, 3), (3, 2), (3, 3))):
+        out.append(dict(group="exact", P=P, A=A, inbred=False, symf=False))  # flat prior: the other samples' comparisons are concrete
     out.append(dict(group="call"))
     for scen in (("dip2", "mixed") if tier == "quick" else ("dip2", "mixed", "tet2", "three")):
         out.append(dict(group="assemble", scenario=scen))
@@ -98,7 +99,12 @@ def _run_exact(c, col):
     site = "mchap.application.call_exact.program.call_sample_genotypes"
 
     def stub_llk(reads, genotype, read_counts=None):
-        v = z3.Real("L_%s_%s" % (reads, "_".join(str(int(r[0])) for r in genotype)))
+        key = "_".join(str(int(r[0])) for r in genotype)
+        if reads != "A":
+            # the other samples carry fixed, mutually different likelihood tables (no extra path forks)
+            h = sum((i + 2) * (int(r[0]) + 1) for i, r in enumerate(genotype)) + (7 if reads == "B" else 11)
+            return E.np.log(E.SymReal(z3.RealVal(E.Fraction(1 + h % 9, 8))))
+        v = z3.Real("L_%s_%s" % (reads, key))
         E.Ctx.cur.assume(v > 0)
         return E.np.log(E.SymReal(v))
 
@@ -121,7 +127,7 @@ def _run_exact(c, col):
     def body(ctx):
         F = E.fresh_real(ctx, "F", 0, 1) if c["inbred"] else None
         Fv = E.SymReal(F) if F is not None else 0
-        farr = E.real_array(E.simplex(ctx, "f", A))
+        farr = E.real_array(E.simplex(ctx, "f", A)) if c.get("symf", True) else E.real_array([E.SymReal(z3.RealVal(E.Fraction(1, A)))] * A)
         rep = ("GP", "AFP")
         return [run(["A"], Fv, farr, rep), run(["A", "B"], Fv, farr, rep), run(["Bprime", "A"], Fv, farr, rep)]
 
